@@ -191,6 +191,19 @@ theorem C04_compress_is_repack (inS outS : States) (value : List Nat) (bits : Na
     compressTemplate value inS outS bits = Wellen.Slice.repack inS outS value 0 bits 0 :=
   Wellen.Slice.compressTemplate_eq_repack inS outS value bits hbits
 
+/-- **segmentation does not alter the data**: for ANY number of blocks (each finished from its own set of encoders and with its own
+compression decisions; the signal may be absent from some blocks), a multi-bit signal is loaded as the concatenation of the
+changes recorded in each block — the time indices of block k shifted by the lengths of the earlier blocks' time tables, all
+entries aligned to the widest kind over the blocks (`SigInBlock`: the signal's encoder in that block recorded the chunk stream
+of the changes `p.2.2`) -/
+theorem C04_multi_block_load (c : Codec) (bits : Nat) (hb : bits ≠ 1) (i : Nat) (l : List (BlockDesc × SigEnc × List Change))
+    (h : ∀ p ∈ l, SigInBlock bits i p) :
+    loadSignal { blocks := l.map fun p => mkBlock c p.1 } i (.bitvec bits) =
+      some { maxStates := joinedStates c l,
+             times := (replayBlocks bits (joinedStates c l) l 0 {}).timesRev.reverse,
+             entries := (replayBlocks bits (joinedStates c l) l 0 {}).entriesRev.reverse } :=
+  multi_block_load c bits hb i l h
+
 /-- the stream the theorems are about is what the encoder appends: `add_n_bit_change` on a multi-bit signal -/
 theorem C04_encoder_chunk (ti : Nat) (value : List Nat) (st : States) (s s' : SigEnc) (bits : Nat)
     (ht : s.tpe = .bitvec bits) (hb : bits ≠ 1) (h : addNBit ti value st s = some s') :
